@@ -91,6 +91,7 @@ pub fn gen_batch_case(check: &str, seed: u64, family: &str, tier: Tier, with_fil
     if with_file || !w.persist || r.chance(0.2) {
         w.out = Some(gen_out_file(&mut r, &w));
     }
+    w.policies_at_run_level = r.chance(0.2);
     if check == "C19" && w.out.is_some() && r.chance(0.2) {
         // a combined policy: every response goes to two files (any mix of formats)
         let mut o2 = gen_out_file(&mut r, &w);
